@@ -3,9 +3,12 @@
    providers exist, every supplying provider has its summary.  Proved for the specification's candidates
    (which the check compares with the application's on every generated case): amounts add up, groups are placed
    in full, and the capacity check of the write path (Model/Txn.v:check_capacity) accepts the candidate.
-   Not proved: the consumer creation / generation compare-and-swap part of "answered 204"; the check claims
-   every returned candidate on the real application instead. *)
-From PV Require Import Spec.CandSpec Proofs.C02 Proofs.C02m.
+   and the whole claim - PUT /allocations/{k} of the model for a new consumer k - is answered 204 in every
+   reachable state.  Not proved: claimability directly for the code model's candidates (it follows where code
+   model = specification, which is proved for the sharing-free suffixed-only fragment, C03_suffixed_only_sound,
+   and compared on every generated case elsewhere); the check also claims every returned candidate on the
+   real application. *)
+From PV Require Import Proofs.Defs Spec.CandSpec Proofs.C02 Proofs.C02m Proofs.C02c.
 
 Theorem C02_providers_exist : forall k v q d a s, rps_wf d ->
   candidates_gen k v q d = COk a s ->
@@ -50,3 +53,27 @@ Theorem C02_claimable_partial : forall v q d c l,
   check_capacity d l = Ok tt.
 Proof. exact c02_claimable_partial. Qed.
 Print Assumptions C02_claimable_partial.
+
+(* the candidate, sent as the allocations of a new consumer k (allocations grouped by provider, consumer_generation
+   null, any project / user / type, any microversion from 1.28), is a well-formed request ... *)
+Theorem C02_claim_request_wf : forall v q d c k proj user ty v',
+  amounts_pos q -> In c (spec_candidates v q d) ->
+  req_wf (AllocPut v' (cons_in_of c k proj user ty)) = true.
+Proof. exact c02_claim_request_wf. Qed.
+Print Assumptions C02_claim_request_wf.
+
+(* ... and is answered 204: in any state with referential integrity and unique inventory keys ... *)
+Theorem C02_claimable : forall cf v q d c k proj user ty v',
+  RI d -> inv_keys_nodup d -> amounts_nonneg q -> In c (spec_candidates v q d) -> 28 <= v' ->
+  find_cons d k = None ->
+  status (snd (step cf d (AllocPut v' (cons_in_of c k proj user ty)))) = 204.
+Proof. exact c02_claimable. Qed.
+Print Assumptions C02_claimable.
+
+(* ... hence in every state reachable by well-formed requests *)
+Theorem C02_claimable_reachable : forall cf l v q c k proj user ty v',
+  reqs_wf l -> amounts_nonneg q -> In c (spec_candidates v q (run cf db0 l)) -> 28 <= v' ->
+  find_cons (run cf db0 l) k = None ->
+  status (snd (step cf (run cf db0 l) (AllocPut v' (cons_in_of c k proj user ty)))) = 204.
+Proof. exact c02_claimable_reachable. Qed.
+Print Assumptions C02_claimable_reachable.
